@@ -64,6 +64,9 @@ func (w *Worker) mut(id int) *Obj {
 		w.goPanic("nil-deref", "nil pointer dereference")
 	}
 	if o, ok := w.objs[id]; ok {
+		if o.Frozen {
+			w.noteSharedWrite(o)
+		}
 		return o
 	}
 	o, ok := w.baseObjs[id]
@@ -512,6 +515,24 @@ func (w *Worker) constVal(c *ssa.Const) Val {
 // dependencies (sync.Pool internals and math/rand state are modelled, not executed).
 func isLibraryGlobal(tag string) bool {
 	return strings.HasPrefix(tag, "github.com/gobwas/")
+}
+
+// noteSharedWrite: obligation O1 extended to configuration shared by sessions (C19): an object
+// that existed when the harness called vFreezeShared (a shared Dialer/Upgrader value, the
+// closures in it and the cells they capture) is not written by library code afterwards, outside
+// sync.Once.  Stores by the harness's own functions are the environment's business.
+func (w *Worker) noteSharedWrite(o *Obj) {
+	if w.inOnce > 0 || w.initDepth > 0 || len(w.stack) == 0 || w.isHarnessFn(w.stack[len(w.stack)-1].fn) {
+		return
+	}
+	key := fmt.Sprintf("shared-write:%d", o.ID)
+	if w.inPrefix() || w.reportedOnce[key] {
+		return
+	}
+	w.reportedOnce[key] = true
+	w.globalWrites = append(w.globalWrites, "shared object in "+w.curFn())
+	w.ensureModel()
+	w.reportViolation("shared-state", "global-write", w.libSite(), "store by "+w.curFn()+" into memory shared between sessions (it existed before vFreezeShared)", w.model)
 }
 
 // noteGlobalWrite: obligation O1 (C19) — package-level state is not written after initialisation.
